@@ -15,10 +15,12 @@ def keyfn(case, res, m):
 def build_cases(chk):
     rng = chk.rng
     cases = scen_log.boundary_cases(rng, chk.tier)
-    n = 60 if chk.tier == 'quick' else 1200
+    n = 70 if chk.tier == 'quick' else 3000
     cases += [scen_log.gen_case(rng, chk.tier) for _ in range(n)]
     sv = [(0, 10), (5, 100), (400, 1000)] if chk.tier == 'quick' else [(0, 10), (1, 10), (5, 100), (400, 1000), (2000, 100), (10, 70000)] * 4
     cases += [scen_log.servlet_case(rng, a, b) for a, b in sv]
+    pv = [(5, 100), (400, 1000)] if chk.tier == 'quick' else [(0, 10), (5, 100), (400, 1000), (2000, 100)] * 3
+    cases += [scen_log.pool_case(rng, a, b) for a, b in pv]
     return cases
 
 
@@ -61,7 +63,7 @@ def run(chk):
         'cases = boundary volumes (0, 1, 2 records ... 2000x100 B, 50x2 kB, 20x64 kB, 3x200 kB; thorough: 20000x100 B, '
         '100x64 kB, 1x1 MB) x ending kind (return, raise, sys.exit 0/3/str), plus random (n, size or mixed sizes, ending, '
         'level pattern, root level, gap before the end, a record from handle_exception after the target ended, first accessor '
-        'join/result), plus the same as a ProcessServlet worker inside a Server; each case runs the REAL mpservice Process in a '
+        'join/result, a custom level below DEBUG with parent root level 1), plus the same as a ProcessServlet worker inside a Server and as the worker of a one-process Pool (close+join); each case runs the REAL mpservice Process in a '
         'fresh interpreter in its own session with a recording handler on the parent\'s root logger; non-trivial = at least two '
         'records emitted and an observation obtained; distinct = distinct (case, summary of the handled sequence)')
     chk.trusted += TRUSTED
@@ -81,9 +83,7 @@ TRUSTED = [
 ASSUMPTIONS = [
     'pipe capacity is counted in records (K >= 1 arbitrary); a record larger than the OS pipe buffer corresponds to K = 1',
     'the child does not configure logging itself (then mpservice deliberately does not forward) and is not killed (C12 covers kills)',
-    'records below DEBUG are dropped in the child (its root logger is set to DEBUG) whatever the parent\'s levels; not modelled',
-    'process pools (multiprocessing.Pool with the spawn context) are not built on mpservice\'s SpawnProcess logging path for their '
-    'workers\' targets beyond Process.run itself; only Process and ProcessServlet workers are exercised',
+    'pools are exercised with one worker and close()+join(); Pool.terminate() / the context manager exit kill the workers (C12\'s signal path)',
 ]
 
 
